@@ -275,7 +275,7 @@ Rooted(st) == LET T == ViewOf(st) IN T.tip \in DOMAIN B /\ LcMatches(st.lc, Path
 OnRestart(e) ==
     LET a == ViewOf(e.pre)  b == ViewOf(e.st)  G == env.g IN
     /\ bad' = bad
-         \cup (IF IsPanic(e.res) THEN {Bad(e, "C12", "restart-panicked")} ELSE
+         \cup (IF IsPanic(e.res) THEN {Bad(e, "C12", IF e.competing > 0 THEN "restart-panicked-with-competing-branch-on-disk" ELSE "restart-panicked")} ELSE
                (IF b.tip # a.tip
                 THEN {Bad(e, "C12", IF e.competing > 0 THEN "restart-changed-tip-with-competing-branch-on-disk" ELSE "restart-changed-tip")}
                 ELSE {})
@@ -293,7 +293,8 @@ OnCrash(e) ==
     LET b == ViewOf(e.st)
         anc == Rng(PathTo(B, e.pretip)) IN
     /\ bad' = bad
-         \cup (IF IsPanic(e.res) THEN {Bad(e, "C12", "restart-after-crash-panicked:" \o e.torn)} ELSE
+         \cup (IF IsPanic(e.res)
+               THEN {Bad(e, "C12", IF e.competing > 0 THEN "restart-panicked-with-competing-branch-on-disk" ELSE "restart-after-crash-panicked:" \o e.torn)} ELSE
                (IF b.tip = "" /\ e.intact > 0 THEN {Bad(e, "C12", "came-up-without-chain-despite-intact-blocks")} ELSE {})
                \cup (IF b.tip # "" /\ b.tip \notin DOMAIN B THEN {Bad(e, "C12", "came-up-on-unknown-block")} ELSE {})
                \cup (IF b.tip # "" /\ ~env.detached /\ Rooted(e.st) /\ ~SupplyOk(e, e.st)
